@@ -2,14 +2,6 @@
    Model/Serde.v) against what the implementation did on the same (type, value). *)
 From TeraV Require Import Model.Value Model.Format Model.Serde.
 
-(* canonical form of a value: map entries sorted by key at every depth (what the harness prints) *)
-Fixpoint canon (v : value) : value :=
-  match v with
-  | VArr l => VArr (map canon l)
-  | VMap m => VMap (ksort (map (fun e : key * value => (fst e, canon (snd e))) m))
-  | _ => v
-  end.
-
 Section All2.
   Context {A B : Type} (f : A -> B -> bool).
   Fixpoint all2 (la : list A) (lb : list B) : bool :=
